@@ -251,3 +251,23 @@ Print Assumptions C18_split_write_torn.
 Theorem C18_merge_by_sound : forall order (pss : list (list cpx)) ps, merge_by order pss = Some ps -> Merge pss ps.
 Proof. exact (@merge_by_sound cpx). Qed.
 Print Assumptions C18_merge_by_sound.
+
+(* ---- round 5: routing is non-blocking per function ---- *)
+
+(* For every sequence of arrivals and receive calls and every function f: what the receivers of f are handed (every
+   single receive result, in order) and what is left queued for f are the same as in the run that contains ONLY the
+   f-events.  Packets of other functions, however many of them lie unread (there is no bound on a queue), make no
+   difference to f: a stalled consumer of one function never delays, drops or reorders another function's packets. *)
+Theorem C18_router_function_independent : forall evs f,
+  obs_of f (snd (r_run r_init evs)) = obs_of f (snd (r_run r_init (filter (rel f) evs))) /\
+  fst (r_run r_init evs) f = fst (r_run r_init (filter (rel f) evs)) f.
+Proof. exact router_independent. Qed.
+Print Assumptions C18_router_function_independent.
+
+(* The router never stops reading: whatever receive calls are (not) made, after k iterations exactly the first k frames
+   of the stream have been taken from the transport; with at least as many iterations as packets nothing is left. *)
+Theorem C18_router_consumes_stream : forall script ps s st, Forall wf_cpx ps -> concat s = concat (map frame ps) ->
+  concat (fst (fst (sys_run s st script))) = concat (map frame (skipn (count_pump script) ps)) /\
+  ((length ps <= count_pump script)%nat -> concat (fst (fst (sys_run s st script))) = []).
+Proof. exact router_consumes. Qed.
+Print Assumptions C18_router_consumes_stream.
